@@ -137,22 +137,20 @@ package file
 
 // declSize is defined as what linkSize reports for a link; linkSize itself is not verified here.
 //@ func (*file.shardNodeFile).linkSize
-//@ assume_ensures
 //@ requires 0 <= position
 //@ at call (*data._BlockSizes).LookupByIndex#1 assert block-size-of-this-link: callee_idx == int64(position)
 //@ at call (github.com/ipld/go-ipld-prime/datamodel.Node).LookupByString#2 assert raw-leaf-size-is-the-tsize-of-this-link: callee_key == "Tsize" && callee_recv == lnk
 //@ at call file.newDeferredFileNode#1 assert child-is-opened-only-when-its-size-is-not-declared: md == nil || err != nil || bsAtErr(addrof(md.BlockSizes), int64(position)) != nil || nodeIntErr(bsAt(addrof(md.BlockSizes), int64(position))) != nil
 //@ at call (io.Seeker).Seek#1 assert fallback-measures-to-the-end: callee_offset == 0 && callee_whence == 2
-//@ ensures err == nil ==> result0 == declSize(s, position)
-//@ ensures result1 != nil ==> fresh(result1)
+//@ ensures defines-declSize: err == nil ==> result0 == declSize(s, position)
+//@ ensures declared-sizes-need-no-reader: sizesDeclared(s) ==> result1 == nil && loads == old(loads)
+//@ assumed defines-declSize declared-sizes-need-no-reader
+//@ ensures a-reader-handed-back-is-new: result1 != nil ==> fresh(result1)
 //@ ensures the-reader-handed-back-is-the-childs-own: result1 != nil ==> isFileReader(result1)
-//@ at return assert the-reader-handed-back-is-the-childs-own: result1 != nil ==> isFileReader(result1)
-//@ ensures forall it Ref :: itpos(it) == old(itpos(it)) && itlen(it) == old(itlen(it))
-//@ ensures no-reader-no-request: result1 == nil ==> loads == old(loads)
-//@ ensures declared-sizes-need-no-reader: sizesDeclared(s) ==> result1 == nil
+//@ ensures iterators-are-left-alone: forall it Ref :: itpos(it) == old(itpos(it)) && itlen(it) == old(itlen(it))
+//@ inst iterators-are-left-alone: it: it
+//@ ensures no-reader-no-request: result1 == nil && err == nil ==> loads == old(loads)
 //@ ensures load-failure-is-returned: err == nil ==> loadFailed == old(loadFailed)
-//@ at return assert load-failure-is-returned: err == nil ==> loadFailed == old(loadFailed)
-//@ at return assert no-reader-no-request: result1 == nil && err == nil ==> loads == old(loads)
 //@ assigns file.shardNodeFile.metadata, file.shardNodeFile.unpackLk, loads, loadFailed
 
 //@ func (*file.shardNodeReader).makeReader
